@@ -369,6 +369,11 @@ Definition step (s : st) (o e : line) : st * outline :=
           end
       | _, _ => (s, (refused, []))
       end
+  | 19 :: u :: _ =>                                      (* all estimator entry points on fresh copies: the union is untouched *)
+      match reg_get (uns s) u with
+      | Some _ => (s, (ok, []))
+      | None => (s, (refused, []))
+      end
   | _ => (s, ([-2], []))
   end.
 
